@@ -1,0 +1,15 @@
+//go:build verif
+
+// Contracts for the generated contract binding, checked by /verif (govc). Comment-only file.
+package abi
+
+// The log feed the EVM watcher reads: every log the subscription delivers and that unpacks is
+// handed to the watcher's queue (the send waits for room; the loop goes round again only after
+// the hand-over), or the subscription ends. Nothing is dropped on the way.
+//@ func (_Abi *AbiFilterer) WatchLogMessagePublished(opts *bind.WatchOpts, sink chan<- *AbiLogMessagePublished, sender []common.Address) (s event.Subscription, err error)
+//@   props C10
+//@   assume-contract
+//@   closure [lit]#1:
+//@     loop [for]:
+//@       iter-ensures [every-unpacked-log-reaches-the-sink] nsent(sink) == old(nsent(sink)) + 1
+//@   end-closure
